@@ -478,13 +478,16 @@ func lambdaFor(n *NodeSpec, tag string) *compose.Lambda {
 
 // BuildOpts are knobs used by individual properties.
 type BuildOpts struct {
-	Store      compose.CheckPointStore
-	NodeOpts   func(sp *Spec, n *NodeSpec, path string) []compose.GraphAddNodeOpt // extra node options (state handlers)
-	NewOpts    func(sp *Spec, path string) []compose.NewGraphOption               // e.g. WithGenLocalState
-	AddOrder   []int                                                              // permutation hint for the order of Add* calls (nil = canonical)
-	ExtraComp  []compose.GraphCompileOption                                       // top level only
-	PreCompile []compose.GraphCompileOption                                       // when non-nil: the graph object is first compiled with these options (result dropped), then as specified
-	BranchHook func(sp *Spec, b *Branch, path string, canon string)               // observes branch evaluations
+	Store     compose.CheckPointStore
+	NodeOpts  func(sp *Spec, n *NodeSpec, path string) []compose.GraphAddNodeOpt // extra node options (state handlers)
+	NewOpts   func(sp *Spec, path string) []compose.NewGraphOption               // e.g. WithGenLocalState
+	AddOrder  []int                                                              // permutation hint for the order of Add* calls (nil = canonical)
+	ExtraComp []compose.GraphCompileOption                                       // top level only
+	// ShareBranches: branches of one graph with the same definition (targets, kind, salt, value type) are ONE
+	// *compose.GraphBranch value added to each of their nodes, as a caller who keeps a branch in a variable would do
+	ShareBranches bool
+	PreCompile    []compose.GraphCompileOption                         // when non-nil: the graph object is first compiled with these options (result dropped), then as specified
+	BranchHook    func(sp *Spec, b *Branch, path string, canon string) // observes branch evaluations
 }
 
 func nodeOpts(sp *Spec, n *NodeSpec, path string, bo *BuildOpts, skipOutputKey ...bool) []compose.GraphAddNodeOpt {
@@ -652,9 +655,20 @@ func buildGraph[I, O any](sp *Spec, path string, bo *BuildOpts) (*compose.Graph[
 			return nil, fmt.Errorf("add edge %s->%s: %w", e.From, e.To, err)
 		}
 	}
+	shared := map[string]*compose.GraphBranch{}
 	for i := range sp.Branches {
-		if err := g.AddBranch(sp.Branches[i].From, branchFor(sp, &sp.Branches[i], path, bo)); err != nil {
-			return nil, fmt.Errorf("add branch from %s: %w", sp.Branches[i].From, err)
+		b := &sp.Branches[i]
+		br := branchFor(sp, b, path, bo)
+		if bo != nil && bo.ShareBranches && (bo.BranchHook == nil) {
+			sig := fmt.Sprintf("%v|%v|%v|%d|%v|%v|%s", b.Targets, b.Multi, b.Stream, b.Salt, b.Force, b.Prefix, sp.OutType(b.From))
+			if prev, ok := shared[sig]; ok {
+				br = prev
+			} else {
+				shared[sig] = br
+			}
+		}
+		if err := g.AddBranch(b.From, br); err != nil {
+			return nil, fmt.Errorf("add branch from %s: %w", b.From, err)
 		}
 	}
 	return g, nil
